@@ -214,6 +214,7 @@ type Worker struct {
 	vfs       *vfs
 	noSummaries bool
 	encoded   []value
+	jsonStore []value
 	heavyCache map[tkey]*Term
 	tableBySig map[string]*Table
 	tabulated int
@@ -764,6 +765,7 @@ func (w *Worker) resetPath(it workItem) {
 	w.vfs = nil
 	w.noSummaries = false
 	w.encoded = nil
+	w.jsonStore = nil
 	w.usedSolver = false
 	w.mapOrderNondet = false
 	if w.tables == nil || len(w.tableBySig) > 50000 {
